@@ -23,7 +23,7 @@ TIMEOUT = {"quick": 900, "thorough": 5400}
 ASSUMPTIONS = ["positive weights", "statistical clauses only for near-uniform weights (effective sample size >= 0.98 n) and, for "
                "AR(1), series of at least 200 integrated autocorrelation times",
                "outlier clause judged only when no row lies within 1e-9 (relative) of the rejection boundary"]
-REQUIRED_COUNTERS = {"series": 100, "outlier_cases": 20, "jackknife_cases": 10, "ensembles": 4}
+REQUIRED_COUNTERS = {"series": 100, "outlier_cases": 20, "jackknife_cases": 10, "ensembles": 4, "contract_blocking_definition": 10, "contract_outliers_definition": 1}
 BLOCKS = [1, 2, 5, 10, 20, 50, 100, 200, 300, 400, 500, 1000, 10000]
 
 
@@ -85,6 +85,8 @@ def gen_cases(tier, seed):
     for rep in range(8 if q else 48):
         cases.append({"type": "ensemble", "kind": "iid" if rep % 2 == 0 else "ar1", "s": int(rng.integers(1 << 30)),
                       "group": "ens%d" % rep, "cost": 40})
+    for wt, ad in (("rhf", None), ("uhf", "reverse")) if q else (("rhf", None), ("uhf", "reverse"), ("uhf", "forward"), ("rhf", "reverse")):
+        cases.append({"type": "driver", "wt": wt, "ad_mode": ad, "nblocks": 24, "s": int(rng.integers(1 << 30)), "group": "drv-%s-%s" % (wt, ad), "cost": 300})
     return cases
 
 
@@ -293,4 +295,8 @@ def run_ensemble(case):
 
 
 def run_case(case):
+    if case["type"] == "driver":
+        from vlib import contracts
+
+        return contracts.driver_case(("stats",), ["blocking-definition", "outliers-definition"], case, "C19")
     return {"series": run_series, "outliers": run_outliers, "jackknife": run_jackknife, "ensemble": run_ensemble}[case["type"]](case)
